@@ -35,6 +35,12 @@ def build(rng, facts, name):
     for cyc in range(cycles):
         # history before Clear: wide range so that arrays, pages and the collapsed state are populated
         history(rng, b, ["c"], spec, rng.randint(3, 25), rng.choice([-3, -1, 0]), rng.choice([1, 2, 3]))
+        if exact and rng.random() < 0.3:          # the exact sum leaves the float range before Clear (value * weight overflows)
+            big = facts[spec]["max"] * 0.5
+            if big > 1e290: b.kadd("c", big, 1e15); b.kadd("c", -big, 1e15)
+        if exact and rng.random() < 0.3:          # a decode refused for missing statistics has already merged bins: Clear must still empty the sketch
+            b.knew("pl", spec, rng.choice(STORES), rng.choice(STORES), False); b.kadd("pl", 2.5); b.kadd("pl", -0.75, 2.0); b.kadd("pl", 0.0)
+            b.kclear("c"); b.emit("kenc pbytes pl 0", "ok"); b.emit("kdecinto c pbytes", "err missing-stats")
         b.kclear("c")
         b.emit("kobs c", lambda a, env: None if a.startswith("count=0 zero=0 empty=1 min=- max=- pos[total=0 empty=1 min=- max=- bins=] neg[total=0 empty=1 min=- max=- bins=]") else "a cleared sketch reports %r" % a)
         fresh = "f%d" % cyc
